@@ -21,6 +21,9 @@ rc=0
 for id in "$@"; do
   echo "=== $id on $(basename "$PATCH")"
   VERIF_REPO="$WT" VERIF_HARNESS="$MH" VERIF_WORK="$MH/work" VERIF_EVID="$MH/evidence" \
-    /verif/check "$id" --tier "${TIER:-quick}" 2>&1 | grep -E "^VIOLATION|^KNOWN-FINDING|TOOL-ERROR|^  " | cut -c1-400 | head -${LINES_MAX:-12}
-  echo "exit=${PIPESTATUS[0]}"
+    /verif/check "$id" --tier "${TIER:-quick}" > "$MH/out.txt" 2>&1
+  rc=$?
+  grep -E "^VIOLATION|^KNOWN-FINDING|TOOL-ERROR|^  " "$MH/out.txt" | cut -c1-400 | head -${LINES_MAX:-12}
+  if [ $rc -ge 2 ]; then tail -15 "$MH/out.txt"; fi
+  echo "exit=$rc"
 done
